@@ -37,6 +37,7 @@ func TestCheck(t *testing.T) {
 		"STORM (high-contention leg for windows without a hook point): 4-12 rerunners, each reading cell 0 directly and through 0-10 concurrently evaluated cached children, equal minRerunInterval; a chain of 8-16 storm writes: readers that have picked the cell's current resource park at a harness gate in front of AddDependency, the write swaps the resource and calls Invalidate on the old one at the moment the gate opens (staggered wake-ups or a spin barrier, order varied); stat registrations_released_with_an_invalidate counts the overlapped registrations. " +
 		"STOP-WITHOUT-COMPUTATION leg: a rerunner whose first 4-9 runs return RetrySentinelError (no successful computation yet), 3-12 goroutines hammering the public RerunImmediately (every retry wakes at once; run goroutines contend with the callers between their context check and r.mu), Stop at a seeded moment of that phase, optionally a second ordinary rerunner and a write afterwards. " +
 		"About a quarter of the cells of random/matrix scenarios (and half of the storm scenarios) follow the fetch-then-register discipline instead: (version, resource) fetched as one pair, the fetched resource registered afterwards, writes always replace + Invalidate; random writers also call RerunImmediately. " +
+		"PINNED-STOPS family (forced order, no luck involved): the 1st-3rd run of a rerunner parks inside the compute function at a harness gate (ignoring its context), Stop #1 is started and observed past the rerunner.stop.cancelled hook, 1-3 further Stops are called from other goroutines, then the run is released; both alwaysSpawnGoroutine modes; verdict by clause (ii): no Stop call may return while the run is still in progress. " +
 		"Oracles: (i) in-flight count 0 at every compute entry; (ii) no entry after Stop returned, in-flight 0 when Stop returns; (iii) after the last write, within <=50 runs per rerunner and at quiescence the last successful run of every live rerunner read exactly the current version of every cell it read and did not register any cell resource on which Invalidate was called (the property's own wording: invalidated dependency => re-run). " +
 		"Non-trivial = the injection fired (targeted) or at least one write landed while a compute function was running and >=2 successful runs happened (random); distinct = scenario shape + hook-visit trace hash.")
 	run.Assume("harness cells follow the documented discipline: readers AddDependency and then read the version; writers bump the version and then Invalidate (replacing the resource) or Strobe")
@@ -51,7 +52,8 @@ func TestCheck(t *testing.T) {
 	nRandom := run.N(500, 120000)
 	nStorm := run.N(280, 12000)
 	nNoComp := run.N(300, 20000)
-	total := M*variants + nRandom + nStorm + nNoComp
+	nPinned := run.N(160, 8000)
+	total := M*variants + nRandom + nStorm + nNoComp + nPinned
 	agg := vlib.NewHitAgg()
 	pf := reactx.Profile{}
 	opt := reactx.Options{}
@@ -133,6 +135,15 @@ func TestCheck(t *testing.T) {
 			return
 		}
 		j := i - M*variants
+		if j >= nRandom+nStorm+nNoComp {
+			j -= nRandom + nStorm + nNoComp
+			sc := reactx.GenPinnedStops(run.Rand("pinned", j))
+			fmt.Printf("CASE %d pinned-stops %d\n", i, j)
+			res := reactx.Run(sc, opt, agg)
+			run.Case(fmt.Sprintf("%s|%x", sc.Shape(), res.Trace), res.Stats["pinned_stop_families"] > 0)
+			report(i, sc, res)
+			return
+		}
 		if j >= nRandom+nStorm {
 			j -= nRandom + nStorm
 			sc := reactx.GenNoComp(run.Rand("nocomp", j))
